@@ -223,28 +223,27 @@ def insertElems (h : Heap) (p : Nat) : Nat → List Nat → Except Err (Heap × 
 /-- `Tag.insert(position, *new_children)` (element.py:1916-1933, with the slot arithmetic "next slot = index of
     the last inserted element + 1"); a `BeautifulSoup` argument stands for its children (element.py:1943-1948);
     returns heap, running position and the inserted elements -/
+def insertArg1 (h : Heap) (p position : Nat) (a : Arg) : Except Err (Heap × Nat × List Nat) :=
+  match a with
+  | .plain v =>
+    match insertElems (alloc h .str v).1 p position [(alloc h .str v).2] with
+    | .error e => .error e
+    | .ok (h2, pos2) => .ok (h2, pos2, [(alloc h .str v).2])
+  | .node x =>
+    if h.kind x = .soup then
+      if x = p then .error .valueError else
+      match insertElems h p position (h.kids x) with
+      | .error e => .error e
+      | .ok (h2, pos2) => .ok (h2, pos2, h.kids x)
+    else
+      match insertElems h p position [x] with
+      | .error e => .error e
+      | .ok (h2, pos2) => .ok (h2, pos2, [x])
+
 def insertArgs (h : Heap) (p : Nat) : Nat → List Arg → Except Err (Heap × Nat × List Nat)
   | position, [] => .ok (h, position, [])
   | position, a :: as =>
-    let step : Except Err (Heap × Nat × List Nat) :=
-      match a with
-      | .plain v =>
-        let (h1, x) := alloc h .str v
-        match insertElems h1 p position [x] with
-        | .error e => .error e
-        | .ok (h2, pos2) => .ok (h2, pos2, [x])
-      | .node x =>
-        if h.kind x = .soup then
-          if x = p then .error .valueError else
-          let xs := h.kids x
-          match insertElems h p position xs with
-          | .error e => .error e
-          | .ok (h2, pos2) => .ok (h2, pos2, xs)
-        else
-          match insertElems h p position [x] with
-          | .error e => .error e
-          | .ok (h2, pos2) => .ok (h2, pos2, [x])
-    match step with
+    match insertArg1 h p position a with
     | .error e => .error e
     | .ok (h2, pos2, ins) =>
       match insertArgs h2 p pos2 as with
